@@ -37,9 +37,10 @@ Proof.
 Qed.
 (* the only pcs at which a thread can be disabled *)
 Lemma blocked_only_at_write_mutex t c g l : tstep t c g l = None ->
-  (at_ l = Idle /\ prog l = []) \/ (exists o, at_ l = P_lock o) \/ (exists it cu, at_ l = E_lock it cu).
+  (at_ l = Idle /\ prog l = []) \/ (exists o, at_ l = P_lock o) \/ (exists it cu, at_ l = E_lock it cu) \/
+  (exists it cu, at_ l = EF_lock it cu).
 Proof.
-  intros H. destruct l as [pr p h its0]. destruct p; cbn [at_ prog]; eauto.
+  intros H. destruct l as [pr p h its0]. destruct p; cbn [at_ prog]; eauto 6.
   all: try (exfalso; unfold tstep in H; cbn [at_ prog hnd its] in H;
             repeat match type of H with
                    | context [chk ?b _ _] => destruct b; cbn [chk] in H
@@ -87,16 +88,17 @@ Lemma opt_eqb_refl (o : option nat) :
 Proof. destruct o; [apply Nat.eqb_refl|reflexivity]. Qed.
 
 (* C14: a thread that runs alone completes its registration in exactly five steps (allocate, construct,
-   load the log head, store next, one CAS), whatever state the other threads were suspended in *)
-Lemma register_solo (s : sysR) t pr o w its0 :
+   load the log head, store next, one CAS), whatever state the other threads were suspended in
+   (unless the operation is one whose allocation is made to fail: then it ends at once, unregistered) *)
+Lemma register_solo (s : sysR) t pr o w its0 : ofails o = false ->
   nth_error (thr s) t = Some (Loc pr (R_alloc o) (Some (w, None)) its0) ->
   let s' := runR s [(t, 0); (t, 0); (t, 0); (t, 0); (t, 0)]%nat in
   exists z, nth_error (thr s') t = Some (Loc pr (body_pc o) (Some (w, Some z)) its0) /\ zhead (gl s') = Some z.
 Proof.
-  intros Hl s'. unfold s', run. cbn [fold_left].
+  intros Hof Hl s'. unfold s', run. cbn [fold_left].
   (* allocate *)
   destruct (do_alloc (gl s) (BRec drec)) as [g1 z] eqn:E1.
-  erewrite (step_at s t 0 _ g1 (Loc pr (R_constr o z) (Some (w, None)) its0)); [|exact Hl|unfold tstep; cbn [at_ prog hnd its]; rewrite E1; reflexivity].
+  erewrite (step_at s t 0 _ g1 (Loc pr (R_constr o z) (Some (w, None)) its0)); [|exact Hl|unfold tstep; cbn [at_ prog hnd its]; rewrite Hof, E1; reflexivity].
   set (s1 := Sys g1 (upd (thr s) t (Loc pr (R_constr o z) (Some (w, None)) its0))).
   assert (H1 : nth_error (thr s1) t = Some (Loc pr (R_constr o z) (Some (w, None)) its0)) by (apply (nth_upd_eq _ _ _ _ Hl)).
   (* construct *)
